@@ -348,8 +348,10 @@ async fn apply_pending(n: &mut Node) {
     }
 }
 
-/// n pulls from m; `lossy`: every second answer is dropped
-async fn sync_pull(nodes: &mut [Node], n: usize, m: usize, lossy: bool) -> usize {
+/// n pulls from m; mode 1: every second answer is dropped; mode 2: the answers about the serving
+/// node's own versions are dropped (only what it relays for others arrives: what a requester gets
+/// that spreads its needs over several peers, or that loses the rest)
+async fn sync_pull(nodes: &mut [Node], n: usize, m: usize, mode: u64) -> usize {
     let sn = generate_sync(&nodes[n].bookie, nodes[n].kit.agent.actor_id()).await;
     let sm = generate_sync(&nodes[m].bookie, nodes[m].kit.agent.actor_id()).await;
     let needs = sn.compute_available_needs(&sm);
@@ -369,6 +371,7 @@ async fn sync_pull(nodes: &mut [Node], n: usize, m: usize, lossy: bool) -> usize
         }
     }
     let total = answers.len();
+    let server_actor = nodes[m].kit.agent.actor_id();
     if std::env::var("VERIF_DEBUG").is_ok() {
         for c in &answers {
             match &c.changeset {
@@ -381,7 +384,7 @@ async fn sync_pull(nodes: &mut [Node], n: usize, m: usize, lossy: bool) -> usize
     let batch: Vec<_> = answers
         .into_iter()
         .enumerate()
-        .filter(|(i, _)| !(lossy && i % 2 == 1))
+        .filter(|(i, c)| !(mode == 1 && i % 2 == 1) && !(mode == 2 && c.actor_id == server_actor))
         .map(|(_, c)| (c, ChangeSource::Sync, Instant::now()))
         .collect();
     if !batch.is_empty() {
@@ -411,7 +414,7 @@ fn split(c: &ChangeV1) -> Vec<ChangeV1> {
     vec![c.clone()]
 }
 
-/// case: cluster <nnodes> <nops> { T n k {I|U|X row val}*k | B n m mode | S n m lossy | A n } <rounds>
+/// case: cluster <nnodes> <nops> { T n k {I|U|X row val}*k | B n m mode | S n m {0 loss-free|1 every second answer lost|2 only relayed versions arrive} | A n } <rounds>
 ///  B modes: 0 in order, 1 reversed, 2 every second dropped, 3 each twice, 4 split in two and only the first half,
 ///           5 split in two, second half first
 pub fn cluster(t: &mut Toks) -> String {
@@ -422,7 +425,7 @@ pub fn cluster(t: &mut Toks) -> String {
     enum Op {
         T(usize, Vec<(String, i64, i64)>),
         B(usize, usize, u64),
-        S(usize, usize, bool),
+        S(usize, usize, u64),
         A(usize),
     }
     let mut ops = vec![];
@@ -434,7 +437,7 @@ pub fn cluster(t: &mut Toks) -> String {
                 Op::T(n, (0..k).map(|_| (t.tok().to_string(), t.i64(), t.i64())).collect())
             }
             "B" => Op::B(t.usize(), t.usize(), t.u64()),
-            "S" => Op::S(t.usize(), t.usize(), t.u64() == 1),
+            "S" => Op::S(t.usize(), t.usize(), t.u64()),
             "A" => Op::A(t.usize()),
             x => panic!("bad op {x}"),
         });
@@ -466,11 +469,26 @@ pub fn cluster(t: &mut Toks) -> String {
                             })
                         })
                         .collect();
-                    let (st, _b) = api_v1_transactions(axum::Extension(nodes[n].kit.agent.clone()), axum::extract::Query(TimeoutParams { timeout: None }), axum::extract::Json(stmts)).await;
+                    let (st, b) = api_v1_transactions(axum::Extension(nodes[n].kit.agent.clone()), axum::extract::Query(TimeoutParams { timeout: None }), axum::extract::Json(stmts)).await;
                     if st.is_success() {
                         acked += 1;
                     }
-                    tokio::time::sleep(Duration::from_millis(25)).await;
+                    // the broadcast of an acknowledged version is sent by a spawned task: wait until its
+                    // last chunk is in the outbox (under load 25 ms were not always enough, and the
+                    // script's next delivery then carried nothing)
+                    if let (true, Some(v)) = (st.is_success(), b.0.version) {
+                        let t0 = Instant::now();
+                        loop {
+                            collect_outbox(&mut nodes[n]);
+                            let done = nodes[n].outbox.iter().any(|c| matches!(&c.changeset, Changeset::Full { version, seqs, last_seq, .. } if version.0 == v && seqs.end() == last_seq));
+                            if done || t0.elapsed() > Duration::from_secs(10) {
+                                break;
+                            }
+                            tokio::time::sleep(Duration::from_millis(3)).await;
+                        }
+                    } else {
+                        tokio::time::sleep(Duration::from_millis(25)).await;
+                    }
                     collect_outbox(&mut nodes[n]);
                 }
                 Op::B(n, m, mode) => {
@@ -495,9 +513,9 @@ pub fn cluster(t: &mut Toks) -> String {
                         apply_pending(&mut nodes[m]).await;
                     }
                 }
-                Op::S(n, m, lossy) => {
+                Op::S(n, m, mode) => {
                     if n != m {
-                        sync_pull(&mut nodes, n, m, lossy).await;
+                        sync_pull(&mut nodes, n, m, mode).await;
                     }
                 }
                 Op::A(n) => apply_pending(&mut nodes[n]).await,
@@ -510,7 +528,7 @@ pub fn cluster(t: &mut Toks) -> String {
             for n in 0..nn {
                 for m in 0..nn {
                     if n != m {
-                        asked += sync_pull(&mut nodes, n, m, false).await;
+                        asked += sync_pull(&mut nodes, n, m, 0).await;
                     }
                 }
             }
